@@ -381,20 +381,31 @@ def run(ctx):
              "pyxform/utils.py", why_fail="no escaper entry and no validator pattern covers U+0000-U+001F")
     rules.append(r7)
     rules.append(name_validator_rule(ctx, "C01", "C01.R8"))
-    # choices-sheet headers become element names of the choice items: the header validator reports AND removes every
-    # header that is blank or contains a space (evaluated on a header set)
-    vh = ctx.func("pyxform.validators.pyxform.choices:validate_headers", "C01.R2")
-    it = ctx.interp("C01.R2")
+    choice_header_obligations(ctx, r2, "C01.R2")
+    return rules
+
+
+def choice_header_obligations(ctx, r2, rid):
+    """Choices-sheet headers become element names of the choice items: the header validator reports AND removes every
+    header that is blank or contains a space, and ONLY those - any other header (non-ASCII letters, dots, dashes,
+    underscores, digits after the first character) is an extra column whose cells belong in the choice items."""
+    vh = ctx.func("pyxform.validators.pyxform.choices:validate_headers", rid)
+    it = ctx.interp(rid)
     it.reset([])
     w = []
-    hdrs = (("list_name",), ("name",), ("label",), ("",), ("my col",), (" ",), ("region",), ("list name",))
+    keep = ("list_name", "name", "label", "region", "list name", "région", "население", "h-I", "J.k", "_x", "col2", "ñandú", "a.b-c_d")
+    drop = ("", "my col", " ", "a b c")
+    hdrs = tuple((h,) for h in keep + drop)
     try:
         bad = it.call_function(vh, [], {"headers": hdrs, "warnings": w}, None, vh.node)
     except Raised as e:
         bad = f"raises {e.exc_name}"
-    r2.check(isinstance(bad, tuple) and set(bad) == {"", "my col", " "} and len(w) == 3, "validate_headers[blank / spaced headers]",
+    r2.check(isinstance(bad, tuple) and set(bad) >= set(drop) and len(w) >= len(drop), "validate_headers[blank / spaced headers]",
              "blank headers and headers with spaces are reported and returned for removal (list name excepted)", vh.loc(), why_fail=f"returned {bad!r}, {len(w)} warnings")
-    return rules
+    wrongly = sorted(set(bad) & set(keep)) if isinstance(bad, tuple) else []
+    r2.check(isinstance(bad, tuple) and not wrongly and len(w) == len(drop), "validate_headers[other headers are kept]",
+             "a header that is a valid XML name (including non-ASCII letters, '.', '-', '_') is not reported and not removed: its cells are extra choice data", vh.loc(),
+             why_fail=f"removed {wrongly}; {len(w)} warnings for {len(drop)} invalid headers")
 
 
 def name_validator_rule(ctx, prop, rid):
